@@ -20,6 +20,7 @@ import (
 	_ "github.com/samaritan-proxy/samaritan/proc/tcp" // register the tcp processor
 
 	"verif/harness/portres"
+	"verif/harness/statpurge"
 )
 
 var svcCounter int64
@@ -40,6 +41,7 @@ type Proxy struct {
 	P    proc.Proc
 	Name string
 	Addr string
+	res  *portres.Port
 }
 
 // Config builds the service config.
@@ -65,11 +67,20 @@ func New(o Opts) (*Proxy, error) {
 	if name == "" {
 		name = fmt.Sprintf("vtcp%d", atomic.AddInt64(&svcCounter, 1))
 	}
+	statpurge.Sweep()
+	// the listener port stays reserved for this proxy until it was stopped (see sim.StartProxy)
+	var res *portres.Port
+	if o.Port == 0 {
+		if res, _ = portres.Reserve(); res != nil {
+			o.Port = uint32(res.Port)
+		}
+	}
 	p, err := proc.New(name, Config(o), o.Hosts)
 	if err != nil {
+		res.Release()
 		return nil, err
 	}
-	return &Proxy{P: p, Name: name}, nil
+	return &Proxy{P: p, Name: name, res: res}, nil
 }
 
 // Start creates and starts the processor and waits until it listens.
@@ -79,9 +90,11 @@ func Start(o Opts) (*Proxy, error) {
 		return nil, err
 	}
 	if err := px.P.Start(); err != nil {
+		statpurge.MarkStopped(px.Name)
 		return nil, err
 	}
 	if !px.WaitListening(2 * time.Second) {
+		go px.Stop(30 * time.Second)
 		return nil, errors.New("tcp proxy did not start listening within 2s")
 	}
 	return px, nil
@@ -106,6 +119,8 @@ func (p *Proxy) Stop(d time.Duration) bool {
 	go func() { p.P.Stop(); close(done) }()
 	select {
 	case <-done:
+		statpurge.MarkStopped(p.Name)
+		p.res.Release()
 		return true
 	case <-time.After(d):
 		return false
